@@ -176,6 +176,8 @@ func suiteNode(c *Ctx) {
 		scenarioHugeViewThenViewZero(c, nn)
 	}
 	c.Class("scenario/huge-view-then-view-zero")
+	scenarioGluedProofBeatsLock(c)
+	c.Class("scenario/glued-proof-beats-lock")
 	nam := 6
 	if c.Thorough() {
 		nam = 60
@@ -184,6 +186,10 @@ func suiteNode(c *Ctx) {
 		scenarioAfterAcceptMutations(c, k)
 	}
 	c.Class("scenario/after-accept-mutations")
+	scenarioStrayPrepareInPreparedView(c)
+	c.Class("scenario/stray-prepare-in-prepared-view")
+	scenariosDescendingIds(c)
+	c.Class("scenario/descending-ids")
 }
 
 // schemeFor: every fifth scenario uses long ids with a common three-byte prefix, every seventh ids
